@@ -116,9 +116,10 @@ fn run_case<G: AffineRepr>(env: &Env<G>, c: &Case) -> CaseOut {
             }
         }
         if !missing.is_empty() {
-            // recorded, not asserted: the property demands keying with the external randomness and
-            // the blinding factors, not a particular position of build_rng in the transcript
-            o.count("note: prover RNG derived before some commitments were absorbed", 1);
+            // "transcript-bound": the RNG must be derived from the transcript as it stands when proving
+            // starts; derived earlier, the same randomness would give the same nonces for different
+            // statements
+            o.violate("rng-built-before-statement", format!("the prover RNG was derived before commitments {:?} were absorbed: it is not bound to the statement", missing), ctxj(json!({})));
         }
         let rekeys: Vec<&Vec<u8>> = po.log.iter().filter_map(|e| if let Event::Rekey { r, witness, .. } = e { if *r == rid { Some(witness) } else { None } } else { None }).collect();
         let mut absent = vec![];
